@@ -93,11 +93,17 @@ def roundtrip_case(kind, how, warm, D=2, R=2, timeout=400):
     return Case(cid, PROP, cfg, declare, fn, claims, timeout=timeout)
 
 
-def scan_case(T, Dz=1, timeout=600):
-    cid = f"C18/scan-carry/kalman/Dz{Dz}T{T}"
-    cfg = dict(what="lax.scan with a density as carry (Kalman filter) equals the unrolled Python loop", T=T, Dz=Dz)
+def scan_case(T, Dz=1, timeout=600, semi=False):
+    cid = f"C18/scan-carry/kalman/Dz{Dz}T{T}" + ("/semi-A-Q-C-R-S0" if semi else "")
+    cfg = dict(what="lax.scan with a density as carry (Kalman filter) equals the unrolled Python loop", T=T, Dz=Dz,
+               concrete_blocks=["A", "Q", "C", "R", "S0"] if semi else [])
 
     def declare(b):
+        if semi:     # model matrices generic rationals; initial mean, offsets and data symbolic
+            b.const("A", b.rat_array((1, Dz, Dz), nonzero=True)); b.free("a", (1, Dz)); b.const("Q", b.rat_spd(1, Dz))
+            b.const("C", b.rat_array((1, 1, Dz), nonzero=True)); b.free("d", (1, 1)); b.const("Rn", b.rat_spd(1, 1))
+            b.const("S0", b.rat_spd(1, Dz)); b.free("m0", (1, Dz)); b.free("y", (T, 1))
+            return
         b.free("A", (1, Dz, Dz)); b.free("a", (1, Dz)); b.spd("Q", 1, Dz)
         b.free("C", (1, 1, Dz)); b.free("d", (1, 1)); b.spd("Rn", 1, 1)
         b.spd("S0", 1, Dz); b.free("m0", (1, Dz)); b.free("y", (T, 1))
@@ -155,6 +161,26 @@ def pipelines():
         p = pdf.GaussianPDF(Sigma=A["S"], mu=A["mu"])
         return p.integrate("(Ax+a)'(Bx+b)(Cx+c)'(Dx+d)", A_mat=A["Am"], a_vec=A["av"], B_mat=A["Am"], b_vec=A["av"])[0]
     P["quartic"] = (d2, f2, ["S", "mu", "Am", "av"])
+
+    def mk_trunc(one_sided):
+        def d(b):
+            b.pos("s", (1,)); b.free("nu", (1, 1)); b.free("lb", (1,)); b.free("a", (1, 1))
+            if not one_sided:
+                b.pos("gap", (1, 1))
+            b.phi_slots(3)
+
+        def f(A):
+            import jax.numpy as jnp
+            from ..phi import patched_norm
+            from gaussian_toolbox.experimental import truncated_measure as tm
+            factor, measure, pdf, conditional = gt()
+            with patched_norm():
+                u = measure.GaussianMeasure(Lambda=(1.0 / A["s"] ** 2)[:, None, None], nu=A["nu"], ln_beta=A["lb"])
+                t = tm.TruncatedGaussianMeasure(measure=u, lower_limit=A["a"], upper_limit=(jnp.inf if one_sided else A["a"] + A["gap"]))
+                return t.integrate("1")[0] + t.integrate("x")[0, 0] + t.integrate("x**2")[0, 0]
+        return d, f, ["s", "nu", "lb", "a"]
+    P["truncated_onesided"] = mk_trunc(True)
+    P["truncated_twosided"] = mk_trunc(False)
 
     def d3(b):
         b.spd("L", 1, 2); b.free("nu", (1, 2)); b.free("lb", (1,)); b.free("v", (1, 2)); b.pos("g", (1,))
@@ -226,8 +252,10 @@ def grad_case(name, timeout=900):
         ctx = ops.ctx
         val = O["val"][()] if isinstance(O["val"], np.ndarray) else O["val"]
         from ..symdom import sdiff
+        if getattr(ctx, "phi", None) is not None:
+            sdiff = ctx.phi.total_diff          # the cdf atoms depend on the inputs: d Phi(t) = phi(t) dt
         for v in ctx.names:
-            if v == "PI":
+            if v == "PI" or v.startswith("PHI_"):
                 continue
             lhs = sdiff(val, v)
             rhs = ctx.ZERO
@@ -296,9 +324,11 @@ def cases(tier, seed=0):
         for k in ("pdf", "measure", "onerank", "cond_full"):
             out.append(roundtrip_case(k, "jit", k in ("pdf", "measure"), D=3, R=2, timeout=1500))
     out.append(scan_case(2, 1))
+    out.append(scan_case(6, 2, semi=True))
     if tier == "thorough":
         out.append(scan_case(3, 1, timeout=3000))
-        out.append(scan_case(2, 2, timeout=3000))
+        out.append(scan_case(12, 2, semi=True, timeout=3000))
+        out.append(scan_case(8, 3, semi=True, timeout=3000))
     for name, (decl, f, names) in pipelines().items():
         out.append(grad_case(name))
     # gradient through the heteroscedastic variational bound (lax.while_loop + stop_gradient on the variational parameters)
